@@ -619,6 +619,7 @@ def r6b_no_memo(ctx, chk, rule="C16.5"):
 
 
 def run(ctx, chk):
+    shared.rule_single_use_iterators(ctx, chk, "C16.0:iter", ("conditionalrewards.py",))
     shared.rule_mutable_defaults(ctx, chk, "C16.0:defaults", ("conditionalrewards.py",))      # a call must not depend on the calls made before it
     r1234_writer(ctx, chk)
     r4_main(ctx, chk)
